@@ -108,30 +108,31 @@ def _val_eq(got, exp):
     return got == exp
 
 
-def judge(out_rows, inputs, ascending, cols=None, exact_score=False):
+def judge(out_rows, inputs, ascending, cols=None, exact_score=False, id_col="id", score_col="score"):
     """out_rows: list of dicts; inputs: list of lists of row dicts. -> None or (class, text)
-    exact_score: the score of an output row must be the very float of its input row (binary inputs)."""
+    exact_score: the score of an output row must be the very float of its input row (binary inputs).
+    id_col / score_col: the names of the column holding the unique row id / the score."""
     cols = list(ROW_COLS if cols is None else cols)
-    by_id = {r["id"]: r for rows in inputs for r in rows}
+    by_id = {r[id_col]: r for rows in inputs for r in rows}
     total = len(by_id)
     seen = {}
     for pos, r in enumerate(out_rows):
         if not isinstance(r, dict) or list(r.keys()) != cols:
             return "row-shape", "output row %d is %r, expected the columns %s" % (pos, r, cols)
-        rid = r.get("id")
+        rid = r.get(id_col)
         if rid not in by_id:
             return "row-modified", "output row %d has id %r which is no input row" % (pos, rid)
         if rid in seen:
             return "row-duplicated", "input row %s emitted at positions %d and %d" % (rid, seen[rid], pos)
         seen[rid] = pos
         for c in cols:
-            if not _val_eq(r[c], by_id[rid][c]) or (exact_score and c == "score"
+            if not _val_eq(r[c], by_id[rid][c]) or (exact_score and c == score_col
                                                      and float(r[c]) != float(by_id[rid][c])):
                 return "row-modified", "row %s column %s: %r, input had %r" % (rid, c, r[c], by_id[rid][c])
     if len(seen) != total:
         missing = sorted(set(by_id) - set(seen))
         return "row-lost", "%d of %d input rows missing from the output: %s" % (len(missing), total, missing[:6])
-    sc = [float(r["score"]) for r in out_rows]
+    sc = [float(r[score_col]) for r in out_rows]
     for j in range(len(sc) - 1):
         if (sc[j] > sc[j + 1]) if ascending else (sc[j] < sc[j + 1]):
             return "not-sorted", "scores %s are not %s at position %d" % (
@@ -253,16 +254,16 @@ def _frame_to_dicts(df):
     return [dict(zip(cols, vals)) for vals in zip(*lists)] if len(cols) else []
 
 
-def consume(readers, path, ascending, reader_chunk, cols, total):
+def consume(readers, path, ascending, reader_chunk, cols, total, score_col="score"):
     """Run one access path of the real table merger to exhaustion -> list of row dicts."""
     from mokapot.streaming import MergedTabularDataReader, merge_readers
     from mokapot.tabular_data import TableType
     kw = {} if cols is None else {"columns": list(cols)}
     if path == "merge_readers":          # the function has no column argument
-        it = merge_readers(readers, priority_column="score", descending=not ascending,
+        it = merge_readers(readers, priority_column=score_col, descending=not ascending,
                            reader_chunk_size=reader_chunk)
         return [r for chunk in itertools.islice(it, total + 3) for r in _frame_to_dicts(chunk)]
-    m = MergedTabularDataReader(readers, "score", descending=not ascending, reader_chunk_size=reader_chunk)
+    m = MergedTabularDataReader(readers, score_col, descending=not ascending, reader_chunk_size=reader_chunk)
     if path.startswith("rows-"):
         it = m.get_row_iterator(row_type=TableType[path[5:]], **kw)
         return [_row_to_dict(r) for r in itertools.islice(it, total + 3)]      # guard against endless output
@@ -609,6 +610,207 @@ def check_near_ties(tier, seed):
     return ck
 
 
+# ------------------------------------------------------------------------------------------------ (d) column names
+# "Unmodified" covers the column names of a row as well as its values.  Table headers are free text: names with a
+# space ("Calc Mass", "mokapot score"), a leading digit or slash ("1/z"), a leading underscore ("_tag"), a Python
+# keyword ("class") or punctuation are all legal, and none of them is a Python identifier, so any row conversion
+# that goes through attribute / namedtuple / keyword-argument names renames or drops them.
+ODD_NAMES = ["Calc Mass", "1/z", "_tag", "class", "m/z", "2nd best", "for", "Peptide-Len", "ion.frac", "%TIC",
+             "is decoy?", "_", "__x", "lambda", "[M+H]", "x:y", "q-value", "mokapot PEP", "None", "a&b", "(ppm)",
+             "3", "def", "index", "Index"]
+PLAIN_NAMES = ["SpecId", "Label", "ScanNr", "ExpMass", "Peptide"]
+ODD_ID_NAMES = ["id", "PSM Id", "_id", "id#", "0id"]
+ODD_SCORE_NAMES = ["score", "mokapot score", "1/score", "_score", "score-1", "pass", "svm.score"]
+PAYLOAD_KINDS = "sifb"
+
+
+def _payload(kind, slot, j):
+    if kind == "s":
+        return "w%d_%d" % (slot, j)
+    if kind == "i":
+        return slot * 100 + j
+    if kind == "f":
+        return slot + 0.25 * j + 0.125          # never a whole number: stays a float through text
+    return j % 2 == 0
+
+
+def named_rows(spec, slot, seq, ascending):
+    """spec: list of [column name, role]; role "id" / "score" / one of PAYLOAD_KINDS -> the rows of input `slot`"""
+    idx = list(reversed(seq)) if ascending else list(seq)
+    rows = []
+    for j, v in enumerate(idx):
+        row = {}
+        for name, role in spec:
+            row[name] = "s%dr%d" % (slot, j) if role == "id" else VALS[v] if role == "score" else \
+                _payload(role, slot, j)
+        rows.append(row)
+    return rows
+
+
+_PA_TYPES = {"id": pa.string(), "score": pa.float64(), "s": pa.string(), "i": pa.int64(), "f": pa.float64(),
+             "b": pa.bool_()}
+
+
+def named_frame(spec, slot, seq, ascending):
+    rows = named_rows(spec, slot, seq, ascending)
+    return pd.DataFrame({name: [r[name] for r in rows] for name, _ in spec})
+
+
+def run_named(d, inp):
+    """One evaluation of the column-name check; inp is the recorded input of the case (files are written here)."""
+    import mokapot.utils as mu
+    from mokapot.tabular_data import DataFrameReader, CSVFileReader, ParquetFileReader
+    spec = [tuple(c) for c in inp["header"]]
+    names = [n for n, _ in spec]
+    id_col = next(n for n, r in spec if r == "id")
+    score_col = next(n for n, r in spec if r == "score")
+    seqs = tuple(tuple(s) for s in inp["seqs"])
+    ascending = bool(inp.get("ascending", False))
+    fmt = inp["format"] if inp["impl"] == "merge_sort" else inp["kind"]
+    inputs = [named_rows(spec, slot, seq, ascending) for slot, seq in enumerate(seqs)]
+    total = sum(len(r) for r in inputs)
+    d = Path(d)
+    d.mkdir(parents=True, exist_ok=True)
+    paths = []
+    for slot, seq in enumerate(seqs):
+        df = named_frame(spec, slot, seq, ascending)
+        path = d / ("in%d.%s" % (slot, "parquet" if fmt == "parquet" else "csv"))
+        if fmt == "csv":
+            df.to_csv(path, sep="\t", index=False)
+        elif fmt == "parquet":
+            schema = pa.schema([(n, _PA_TYPES[r]) for n, r in spec])
+            pq.write_table(pa.Table.from_pandas(df, preserve_index=False, schema=schema), path, row_group_size=2)
+        paths.append(path)
+    if inp["impl"] == "merge_sort":
+        old = mu.MERGE_SORT_CHUNK_SIZE
+        mu.MERGE_SORT_CHUNK_SIZE = inp["chunk"]
+        try:
+            out = list(itertools.islice(mu.merge_sort(paths, score_col), total + 3))
+        except Exception as e:                                        # noqa: BLE001
+            return "raises-" + type(e).__name__, str(e)[:200]
+        finally:
+            mu.MERGE_SORT_CHUNK_SIZE = old
+        out = [dict(r) if isinstance(r, dict) else r for r in out]
+        return judge(out, inputs, False, names, id_col=id_col, score_col=score_col)
+    cols = inp["columns"]
+    try:
+        if fmt == "frame":
+            readers = [DataFrameReader(named_frame(spec, slot, seq, ascending)) for slot, seq in enumerate(seqs)]
+        else:
+            readers = [(CSVFileReader if fmt == "csv" else ParquetFileReader)(p) for p in paths]
+        out = consume(readers, inp["path"], ascending, inp["reader_chunk"], cols, total, score_col=score_col)
+    except Exception as e:                                            # noqa: BLE001
+        return "raises-" + type(e).__name__, str(e)[:200]
+    want = cols if (cols is not None and inp["path"] != "merge_readers") else names
+    return judge(out, inputs, ascending, want, id_col=id_col, score_col=score_col)
+
+
+def _is_odd(name):
+    import keyword
+    return not name.isidentifier() or keyword.iskeyword(name) or name.startswith("_")
+
+
+def column_name_cases(tier, seed):
+    """-> [(header spec, tuple of sequences)]: every odd name alone (as payload, id or score column, the score
+    column first / in the middle / last), then random headers mixing odd and plain names in random order."""
+    rng = random.Random(seed + 2)
+    full = sorted_seqs(3 if tier == "quick" else 5)
+    n_rnd = 90 if tier == "quick" else 1500
+    max_inputs = 4 if tier == "quick" else 8
+
+    def seqs_for(q):
+        k = 1 + q % 3 if q % 7 else 1 + q % max_inputs
+        return tuple(rng.choice(full) for _ in range(k))
+
+    cases = []
+    q = 0
+    for name in ODD_NAMES:                               # one odd payload column, all 4 value kinds over the names
+        kind = PAYLOAD_KINDS[q % 4]
+        spec = [["id", "id"], [name, kind], ["Label", "i"]]
+        spec.insert((0, 2, 3)[q % 3], ["score", "score"])
+        cases.append((spec, seqs_for(q)))
+        q += 1
+    for name in ODD_ID_NAMES[1:]:
+        cases.append(([[name, "id"], ["score", "score"], ["Label", "i"]], seqs_for(q)))
+        q += 1
+    for name in ODD_SCORE_NAMES[1:]:
+        spec = [["id", "id"], ["Label", "i"], ["Peptide", "s"]]
+        spec.insert((0, 2, 3)[q % 3], [name, "score"])
+        cases.append((spec, seqs_for(q)))
+        q += 1
+    for _ in range(n_rnd):
+        n_odd = rng.randint(1, 4)
+        names = rng.sample(ODD_NAMES, n_odd) + rng.sample(PLAIN_NAMES, rng.randint(0, 2))
+        spec = [[n, rng.choice(PAYLOAD_KINDS)] for n in names]
+        spec.append([rng.choice(ODD_ID_NAMES), "id"])
+        spec.append([rng.choice(ODD_SCORE_NAMES), "score"])
+        rng.shuffle(spec)
+        cases.append((spec, seqs_for(q)))
+        q += 1
+    return cases
+
+
+def _column_name_task(task):
+    d, items = task
+    ev = _Events()
+    for j, spec, seqs in items:
+        names = [n for n, _ in spec]
+        id_col = next(n for n, r in spec if r == "id")
+        score_col = next(n for n, r in spec if r == "score")
+        sizes = _chunk_sizes(seqs)
+        nt = sum(_is_odd(n) for n in names) >= 1 and len({v for s in seqs for v in s}) >= 2
+        extra = [n for n in names if n not in (id_col, score_col)]
+        colreqs = [None, [score_col, id_col] + extra[-1:], list(reversed(names))]
+        runs = [dict(impl="merge_sort", format="csv", chunk=sizes[j % len(sizes)]),
+                dict(impl="merge_sort", format="parquet", chunk=sizes[(j + 1) % len(sizes)])]
+        for q in range(2):
+            p = (3 * j + 3 * q) % len(PATHS)
+            runs.append(dict(impl="table", kind=("csv", "frame", "parquet")[(j + q) % 3], ascending=(j + q) % 2 == 1,
+                             path=PATHS[p], reader_chunk=sizes[(j + p) % len(sizes)],
+                             columns=colreqs[(j + p // 3) % len(colreqs)]))
+        for n, run in enumerate(runs):
+            inp = dict(run, header=[list(c) for c in spec], seqs=[list(s) for s in seqs])
+            ev.case(("colnames", json.dumps(inp, sort_keys=True)), nontrivial=nt)
+            bad = run_named(Path(d) / ("c%d_%d" % (j, n)), inp)
+            if bad:
+                if run["impl"] == "merge_sort":
+                    ev.violation("odd-column-names-merge_sort-%s-%s" % (run["format"], bad[0]),
+                                 "header %r: %s" % (names, bad[1]), inp)
+                else:
+                    ev.violation("odd-column-names-table-merger-%s-%s" % (run["kind"], bad[0]),
+                                 "header %r, %s via %s: %s" % (names, run["kind"], run["path"], bad[1]), inp)
+    return ev.events
+
+
+def check_column_names(tier, seed):
+    cases = column_name_cases(tier, seed)
+    quick = tier == "quick"
+    n_fixed = len(ODD_NAMES) + len(ODD_ID_NAMES) - 1 + len(ODD_SCORE_NAMES) - 1
+    ck = Check("merge_rows_unmodified_odd_column_names",
+               "mokapot.utils.merge_sort (csv_row_iterator, parquet_row_iterator), "
+               "mokapot.streaming.MergedTabularDataReader / merge_readers",
+               "%d headers: each of %d column names that are legal table headers but no plain Python identifiers (a "
+               "space, a leading digit, slash, punctuation, a leading underscore, Python keywords, 'index') alone as "
+               "a payload column (string / int / float / bool values rotating), %d such names for the id column and "
+               "%d for the score column (score column first / in the middle / last); %d random "
+               "(random.Random(%d)) headers of 1..4 such names plus 0..2 plain names plus id and score column (odd "
+               "or plain name) in random order; each header with 1..3 (every 7th: 1..%d) inputs of 1..%d rows drawn "
+               "from the non-increasing sequences over the 3 values %s; each case: merge_sort from tab-separated "
+               "text and from Parquet (MERGE_SORT_CHUNK_SIZE rotating over {1, 2, longest input + 1}) and 2 of the 8 "
+               "access paths of the table merger (frame / text / Parquet readers, direction, reader_chunk_size and "
+               "column request rotating with the case number)"
+               % (len(cases), len(ODD_NAMES), len(ODD_ID_NAMES) - 1, len(ODD_SCORE_NAMES) - 1,
+                  len(cases) - n_fixed, seed + 2, 4 if quick else 8, 3 if quick else 5, VALS),
+               "oracle: as in the other checks, with the column names part of the row: every output row must have "
+               "exactly the column names of the header (or of the column request), in that order, the values of "
+               "the input row with the same id, every id once, scores monotone; non-trivial = at least one column "
+               "name that is no plain identifier and at least 2 distinct score values")
+    with scratch("c14d_") as d:
+        _run_tasks(ck, _column_name_task,
+                   [(str(d), part) for part in _split([(j, s, q) for j, (s, q) in enumerate(cases)], 14)])
+    return ck
+
+
 # ------------------------------------------------------------------------------------------------ plumbing
 class _Events:
     """Recorder with the interface of Check, so that worker processes can report back."""
@@ -637,6 +839,7 @@ def _worker_init():
 def _run_tasks(ck, func, tasks):
     """Events are replayed in task order (not completion order): the result is deterministic."""
     import multiprocessing as mp
+    import mokapot.utils, mokapot.streaming, mokapot.tabular_data   # noqa: E401,F401  imported once, inherited by the forked workers
     with mp.get_context("fork").Pool(min(14, max(1, len(tasks))), initializer=_worker_init) as pool:
         results = pool.map(func, tasks, chunksize=1)
     viol, seen, first, rest = [], set(), [], []
@@ -661,6 +864,10 @@ def REPLAY(check_name, violation):
     if impl == "reject":
         bad = run_rejection(tuple(inp["seq"]), tuple(tuple(o) for o in inp["others"]), inp["position"],
                             inp["ascending"], inp["path"], inp["reader_chunk"])
+        return {"violated": bool(bad), "detail": bad}
+    if "header" in inp:                                    # column-name check: the header travels with the case
+        with scratch("c14p_") as d:
+            bad = run_named(d, inp)
         return {"violated": bool(bad), "detail": bad}
     seqs = tuple(tuple(s) for s in inp["seqs"])
     if "vals_hex" in inp:                                  # near-tie check: the ladder travels with the case
@@ -698,7 +905,8 @@ if __name__ == "__main__":
     a = args()
     np.random.seed(a.seed)
     emit(_timed([(check_merge_sort, a.tier, a.seed), (check_table_merger, a.tier, a.seed),
-                 (check_rejection, a.tier, a.seed), (check_near_ties, a.tier, a.seed)]),
+                 (check_rejection, a.tier, a.seed), (check_near_ties, a.tier, a.seed),
+                 (check_column_names, a.tier, a.seed)]),
          ["inputs are non-empty, finite scores, sorted as declared (except in the rejection check); three score "
           "values generate every tie pattern but not every spacing of scores (the near-tie check adds ladders of "
           "3 nearly equal values: spacings from 1 ulp to 2**-20 relative, not every spacing)",
@@ -707,6 +915,11 @@ if __name__ == "__main__":
           "exact in this environment (up to 3 ulp; about 1e-12 relative for values written with leading zeros "
           "after the decimal point), so closer values could change their order by parsing alone; for text inputs rows are compared with relative tolerance 1e-12 and the "
           "order is judged on the emitted values",
+          "column names: the main checks use the identifier-like names id / score / k / t; the column-name check adds "
+          "a fixed list of 25 + 4 + 6 names that are no plain Python identifiers (space, leading digit, slash, "
+          "punctuation, leading underscore, keyword, 'index'); names are unique within a header, non-empty, without "
+          "tab / quote / newline / '#' / leading or trailing blank (the quoting rules of the text format are not the "
+          "subject here), and the row id is always a string column",
           "merge_sort is only specified for descending order; the rejection clause concerns the table merger only",
           "the numbers of inputs above 2 (quick) are covered exhaustively only for short inputs, otherwise by "
           "seeded random sampling (see the bound of each check)"])
